@@ -182,6 +182,18 @@ def c14(case, impl):
         for k, (w, g) in enumerate(zip(want, kinds)):
             if w != g:
                 return f"RUN {callee}: argument {k + 1} is {g}, parameter is {w} | {line.strip()[:80]}"
+    # a record passed between procedures must be declared field for field alike in each of them
+    text = out_text(impl)
+    if text:
+        seen = {}
+        for line in text.split("\n"):
+            m = re.match(r"(?i)^\s*type\s+(\w+)\s*=\s*(.*)$", line.rstrip("\r"))
+            if m:
+                name = m.group(1).lower()
+                body = re.sub(r"\s+", "", m.group(2)).lower()
+                if name in seen and seen[name] != body:
+                    return f"record type {name} is declared differently in two procedures of the output: {seen[name][:70]} / {body[:70]}"
+                seen.setdefault(name, body)
     return None
 
 
